@@ -866,7 +866,7 @@ func TestC09(t *testing.T) {
 	}()
 	e := setup(t, out)
 	e.cnt = out.Count
-	nProg := hx.N(400, 2000)
+	nProg := hx.N(300, 2000)
 	debug := os.Getenv("VERIF_DEBUG") != ""
 	dir := e.directed(rand.New(rand.NewSource(seed ^ 0x5eed)))
 	dir = append(dir, e.directCalls(rand.New(rand.NewSource(seed^0xd1ec)))...)
